@@ -187,7 +187,8 @@ def read_write(chk, prog, names):
     addr = tm.sym("addr", 16)
     ri, ai = prog.field_index(names.MEMORY, "rom"), prog.field_index(names.MEMORY, "ram")
     slot = tm.zext(tm.binop("lshr", addr, K(14, 16)), 64)
-    for meth, nargs in (("read", 0), ("write", 1)):
+    # force_write is the poke path: the same cell as a CPU access of that address would reach, ROM included
+    for meth, nargs in (("read", 0), ("write", 1), ("force_write", 1)):
         w = Walker(prog)
         st = w.new_state()
         st.store[("h", "mem")] = SymObj("mem", ("adt", names.MEMORY, ()))
@@ -203,7 +204,7 @@ def read_write(chk, prog, names):
             if ("Vec<T, A> as core::ops::index::Index" in p) or ("Vec<T, A> as core::ops::index::IndexMut" in p):
                 w.opaque_paths.add(p)
         fn = prog.fn(prog.fn_path("rustzx_core", "ZXMemory::" + meth))
-        args = [Ref(("h", "mem"), (), meth == "write"), addr] + ([tm.sym("value", 8)] if nargs else [])
+        args = [Ref(("h", "mem"), (), meth != "read"), addr] + ([tm.sym("value", 8)] if nargs else [])
         rs = w.run(fn, args, genv={}, state=st)
         key = "T-BITS/ZXMemory::%s" % meth
         if not rs or any(r.outcome != "return" for r in rs):
@@ -233,9 +234,9 @@ def read_write(chk, prog, names):
             got = acc[0].args[1]
             chk.check(isinstance(got, T) and tm.equiv(got, want) is True, key + "/offset",
                       "%s index is %s; documented page*16384 + (addr & 0x3FFF)" % (meth, tm.show(got) if isinstance(got, T) else got))
-            if meth == "write":
-                chk.check("IndexMut" in acc[0].path, key + "/mutable", "write does not store")
-    chk.floor("memory-paths", 12)
+            if meth != "read":
+                chk.check("IndexMut" in acc[0].path, key + "/mutable", "%s does not store" % meth)
+    chk.floor("memory-paths", 20)
 
 
 def who(chk, prog, names, cg, fa):
